@@ -3,12 +3,12 @@ package main
 // C19 — Server is stateless before a valid cookie and silent in hidden mode.
 
 import (
-	"strings"
 	"fmt"
 	"go/ast"
 	"go/token"
 	"go/types"
 	"sort"
+	"strings"
 
 	"golang.org/x/tools/go/ssa"
 )
@@ -983,7 +983,6 @@ func unitMismatch(P *Program, fn *ssa.Function) string {
 	return res
 }
 
-
 // dispatcherOf: rp itself if it compares a value with at least three of the message-type constants,
 // otherwise the local helper of rp (at most two calls down) that does.
 func dispatcherOf(P *Program, rp *ssa.Function, consts []int64) *ssa.Function {
@@ -1029,7 +1028,6 @@ func dispatcherOf(P *Program, rp *ssa.Function, consts []int64) *ssa.Function {
 	visit(rp, 0)
 	return best
 }
-
 
 func funcByFullName(P *Program, full string) *ssa.Function {
 	for _, f := range P.ModuleFuncs("transport") {
